@@ -36,6 +36,7 @@ import (
 
 	"github.com/invopop/gobl"
 	"github.com/invopop/gobl/bill"
+	"github.com/invopop/gobl/head"
 	"github.com/invopop/gobl/schema"
 	"github.com/invopop/yaml"
 
@@ -260,7 +261,77 @@ func pipelineEntry(data []byte, entry string) (panics []panicRec, issues []errIs
 		runPlain("invert", func() error { return inv.Invert() })
 		runPlain("calculate", func() error { return inv.Calculate() })
 	}
+	asParsed(data, entry, &panics)
 	return
+}
+
+// asParsed: the same operations on a second, fresh parse of the input that has NOT been calculated
+// first — a parsed envelope or document is "subsequently calculated, validated, digested, signed,
+// verified, corrected or replicated" in any order, so whatever the text carries (stored totals with
+// nothing behind them, a header without its document, figures that no calculation would produce) is
+// what each operation meets.  Only panics are recorded here (the error keys are judged on the
+// calculated path above).
+func asParsed(data []byte, entry string, panics *[]panicRec) {
+	parse := func() *gobl.Envelope {
+		var env *gobl.Envelope
+		_, _, _ = core.ProtectSite(func() {
+			if entry == "unmarshal" {
+				e := new(gobl.Envelope)
+				if json.Unmarshal(data, e) == nil {
+					env = e
+				}
+				return
+			}
+			obj, err := gobl.Parse(data)
+			if err != nil || obj == nil {
+				return
+			}
+			if e, ok := obj.(*gobl.Envelope); ok {
+				env = e
+				return
+			}
+			// a bare document: hold it in an envelope without calculating it
+			if so, err := schema.NewObject(obj); err == nil {
+				env = &gobl.Envelope{Head: head.NewHeader(), Document: so}
+			}
+		})
+		return env
+	}
+	ops := []struct {
+		stage string
+		f     func(env *gobl.Envelope)
+	}{
+		{"as-parsed:invert", func(env *gobl.Envelope) {
+			if inv, ok := env.Extract().(*bill.Invoice); ok && inv != nil {
+				_ = inv.Invert()
+			}
+		}},
+		{"as-parsed:remove-included-taxes", func(env *gobl.Envelope) {
+			if inv, ok := env.Extract().(*bill.Invoice); ok && inv != nil {
+				_ = inv.RemoveIncludedTaxes()
+			}
+		}},
+		{"as-parsed:correct", func(env *gobl.Envelope) { _, _ = env.Correct(bill.Credit, bill.WithReason("r")) }},
+		{"as-parsed:replicate", func(env *gobl.Envelope) { _, _ = env.Replicate() }},
+		{"as-parsed:sign-verify", func(env *gobl.Envelope) { _ = env.Sign(key); _ = env.Verify(key.Public()); _ = env.Verify() }},
+		{"as-parsed:digest-marshal", func(env *gobl.Envelope) { _, _ = env.Digest(); _, _ = json.Marshal(env) }},
+		{"as-parsed:convert", func(env *gobl.Envelope) {
+			if inv, ok := env.Extract().(*bill.Invoice); ok && inv != nil {
+				_, _ = inv.ConvertInto("USD")
+				_, _ = inv.ConvertInto("EUR")
+			}
+		}},
+	}
+	for _, op := range ops {
+		env := parse()
+		if env == nil || env.Document == nil {
+			return
+		}
+		site, msg, _ := core.ProtectSite(func() { op.f(env) })
+		if site != "" {
+			*panics = append(*panics, panicRec{op.stage, site, msg})
+		}
+	}
 }
 
 /* ---------- generators ---------- */
